@@ -105,8 +105,8 @@ FLOORS = {"steps_compared": 1000000, "already_called_errors": 100000, "swallowed
           "histories_reentrant_cancellers": 50000, "histories_pause_chaindeferred": 30000,
           "chaindeferred_pairs_run": 10000, "cancel_no_effect_fired_paused": 5000,
           "histories_with_debugging_on": 30000, "histories_with_deferred_subclass_levels": 30000,
-          "histories_reentrant_late_fire": 1, "reentrant_late_fires_ignored": 1,
-          "reentrant_late_fires_already_called": 1, "fires_after_ignored_reentrant_fire": 1}
+          "histories_reentrant_late_fire": 20000, "reentrant_late_fires_ignored": 5000,
+          "reentrant_late_fires_already_called": 1000, "fires_after_ignored_reentrant_fire": 2000}
 READY = True
 
 KINDS = ("none", "cb", "eb", "nothing", "raises")
